@@ -76,6 +76,12 @@ MUTANTS = [
     ("block kept in single precision", "AegeanTools/BANE.py",
      "    data = data.astype(np.float64)",
      "    data = data.astype(np.float32)", "C06-R6"),
+    ("box height taken from the column extent", "AegeanTools/BANE.py",
+     "        r_min = max(0, r - box_size[0] // 2)",
+     "        r_min = max(0, r - box_size[1] // 2)", "C06-R7"),
+    ("column bound clamped with the number of rows", "AegeanTools/BANE.py",
+     "        c_max = min(data.shape[1] - 1, c + box_size[1] // 2)",
+     "        c_max = min(data.shape[0] - 1, c + box_size[1] // 2)", "C06-R7"),
 ]
 TWINS = [
     ("explicit full slice", "AegeanTools/BANE.py",
@@ -548,6 +554,15 @@ def run(ctx):
               "numpy arrays are (rows=NAXIS2, columns=NAXIS1)",
               node=shp[0] if shp else fimg.node)
     r6_precision(ctx, prog)
+    # ---------------------------------------------------------------- R7
+    ctx.rule("C06-R7", "axis discipline of the estimator: row quantities "
+             "(stripe bounds, box height, grid step along rows) and column "
+             "quantities are never mixed in sigma_filter")
+    from .. import unitrules as _ur
+    _ur.apply(ctx, "C06-R7", {"BANE.sigma_filter"}, kinds=set(),
+              report_rules={"idx-slice-axis", "idx-crossed"},
+              what="axis-typed expressions in sigma_filter", floor=None)
+
 
 
 NARROW = {"numpy.float32", "numpy.float16", "numpy.half", "numpy.single"}
